@@ -22,4 +22,13 @@ assert sum(1 for _ in all_rooted_trees(range(5))) == 236
 assert [sum(1 for _ in all_ordered_shapes(n)) for n in (1, 2, 3, 4)] == [1, 1, 3, 11]
 sl = rt.split_lengths(rooted=False)
 assert sl[frozenset([frozenset(["T0", "T1"]), frozenset(["T2", "T3"])])] == 0.75
-print("selftest ok")
+# regression inputs must name a sub-check that still exists (a stale one silently tests nothing)
+import glob, json
+from lib import runner
+_mods = {}
+for f in sorted(glob.glob(os.path.join(runner.VERIF, "corpus", "replays", "C*_*.json"))):
+    prop = os.path.basename(f).split("_")[0]
+    mod = _mods.get(prop) or _mods.setdefault(prop, runner.load_check(prop))
+    rec = json.load(open(f))
+    assert rec["sub"] in mod.SUBCHECKS and "case" in rec, "stale regression input " + f
+print("selftest ok (%d regression inputs)" % len(glob.glob(os.path.join(runner.VERIF, "corpus", "replays", "C*_*.json"))))
